@@ -61,6 +61,11 @@ func (e *env) idents(forServer bool) []ident {
 	add("honest", good, e.ca.Inter, v, true, true)
 	add("valid-cert-other-key", good, e.ca.Inter, own, true, true)
 	add("other-name", e.ca.LeafFor(v.Public, certs.DNSName("other.example")), e.ca.Inter, v, true, !forServer)
+	// near misses of the expected DNS name: none of them is the name
+	add("lookalike-name-long-s", e.ca.LeafFor(v.Public, certs.DNSName("\u017frv.example")), e.ca.Inter, v, true, !forServer) // U+017F folds to 's' under Unicode case folding
+	add("name-with-suffix", e.ca.LeafFor(v.Public, certs.DNSName("srv.example.evil.example")), e.ca.Inter, v, true, !forServer)
+	add("name-truncated", e.ca.LeafFor(v.Public, certs.DNSName("srv.exampl")), e.ca.Inter, v, true, !forServer)
+	add("name-with-extra-label", e.ca.LeafFor(v.Public, certs.DNSName("a.srv.example")), e.ca.Inter, v, true, !forServer)
 	add("raw-name-instead-of-dns", e.ca.LeafFor(v.Public, certs.RawStringName("srv.example")), e.ca.Inter, v, true, !forServer)
 	add("expired", e.ca.LeafAt(v.Public, time.Now(), time.Minute, nm...), e.ca.Inter, v, false, true)                                // verifier clock is +10 min
 	add("expires-exactly-now", e.ca.LeafAt(v.Public, time.Unix(e.now.Unix()-60, 0), time.Minute, nm...), e.ca.Inter, v, false, true) // ExpiresAt == now
